@@ -38,6 +38,8 @@ def main(argv):
         runs = [("depth3", ["depth=3", "cont=2", "garbage=2"]), ("maxrecord", ["depth=1", "cont=1", "garbage=1", "long=1"])]
     else:
         runs = [("depth3", ["depth=3", "cont=3", "garbage=2", "thorough=1"]), ("depth4", ["depth=4", "cont=2", "garbage=1"]), ("maxrecord", ["depth=2", "cont=2", "garbage=1", "long=1"])]
+    # a dependency list of 131066..131074 entries (the record size limit is 3 words + 131068 ids)
+    runs.append(("maxdeps", ["maxdeps=1"]))
     total = {"states": 0, "transitions": 0, "tears": 0, "continuations": 0, "ops": 0, "loads": 0, "garbage_tails": 0, "crash_points": 0}
     samples, fams = [], []
     for name, args in runs:
